@@ -289,7 +289,11 @@ fn main() {
             };
             let style_n = rng.usize(4);
             let style = style_of(style_n);
-            let want_wc = rng.chance(3, 10);
+            // Edits that produce a *different conflict* go through the API only: after a snapshot
+            // the tree is passed through MergedTree::resolve() (file-level content merge of the
+            // new sides and tree-level simplification, C07), which is outside this model. The
+            // unedited file (kind 0) and marker-free text (kind 2) are not affected by it.
+            let want_wc = rng.chance(3, 10) && (kind == 0 || kind == 2);
             let nlabels = terms.len();
             let label_strs: Vec<String> = if rng.chance(1, 2) {
                 vec![]
